@@ -173,7 +173,7 @@ func main() {
 	var table []access
 	var commands []string
 	typeBytes := map[string]string{}
-	facts := map[string]bool{"handleMessageOnlyFromDispatch": true, "sharedTypesHavePointerReceivers": true}
+	facts := map[string]bool{"handleMessageOnlyFromDispatch": true, "sharedTypesHavePointerReceivers": true, "noUnicodeCaseFolding": true}
 	var stopOrder []string
 
 	for _, f := range files {
@@ -213,6 +213,11 @@ func main() {
 				// registered command names
 				ast.Inspect(d.Body, func(n ast.Node) bool {
 					if call, ok := n.(*ast.CallExpr); ok {
+						// command and option names are folded byte-wise (upperASCII): Unicode case folding would let
+						// letters outside ASCII spell a command
+						if pkg, sel := selName(call.Fun); pkg == "strings" && (sel == "ToUpper" || sel == "ToLower" || sel == "EqualFold" || sel == "ToTitle") {
+							facts["noUnicodeCaseFolding"] = false
+						}
 						if _, sel := selName(call.Fun); sel == "handleMessage" && fname != "Server.dispatch" {
 							facts["handleMessageOnlyFromDispatch"] = false
 						}
